@@ -28,7 +28,8 @@ RULE = ('grid num_rounds 0..6 x checkpoint_frequency 0..3 x num_checkpoints_to_k
         '(plus num_rounds 11, root_dir with regex metacharacters, 0..2 final evaluations), a crash injected at EVERY '
         'model-level effect index of the first run (all three torn-prefix classes for checkpoint writes), crash '
         'histories of depth 2 (quick) / 3 (thorough), restart after completion; toy integer algorithm + real '
-        'UniformGetClientSampler, and FedAvg configurations; non-trivial = at least one crash actually happened '
+        'UniformGetClientSampler, a mixed-kind JAX pytree state (weak scalar, bfloat16/float16, int32, PRNG key) compared by '
+        'leaf type / dtype / weak_type / bits, and FedAvg configurations; non-trivial = at least one crash actually happened '
         'and at least one round was configured; distinct = distinct case JSON')
 TRUSTED = [
     'tf.io.gfile.rename / remove are atomic on the local file system; files appear only through the recorded effects',
@@ -278,10 +279,59 @@ def _fedavg_algorithm():
 
 
 def _state_bytes(state):
+  """Signature of a state pytree, leaf by leaf: leaf TYPE (jax.Array / numpy / python scalar), dtype, weak_type
+  and bit pattern.  Two states with equal signatures behave identically under dtype promotion."""
   import jax
   import numpy as np
-  leaves = jax.tree_util.tree_leaves(state)
-  return b'|'.join(np.asarray(l).dtype.str.encode() + np.asarray(l).tobytes() for l in leaves)
+  out = []
+  for l in jax.tree_util.tree_leaves(state):
+    kind = b'J' if isinstance(l, jax.Array) else b'N' if isinstance(l, (np.ndarray, np.generic)) else \
+        b'P' + type(l).__name__.encode()
+    weak = b'w' if getattr(l, 'weak_type', False) else b's'
+    a = np.asarray(l)
+    out.append(kind + weak + a.dtype.str.encode() + str(a.shape).encode() + a.tobytes())
+  return b'|'.join(out)
+
+
+_MIXED = {}
+
+
+def _mixed_algorithm():
+  """Third experiment: the server state is a pytree of JAX arrays of mixed kinds -- a weakly typed scalar
+  (jnp.asarray(python float)), bfloat16 and float16 vectors, an int32 counter, a PRNG key -- and the round uses
+  dtype-promotion-sensitive arithmetic (w - lr * g keeps w's dtype only while lr stays weakly typed)."""
+  import fedjax
+  import jax
+  import jax.numpy as jnp
+
+  def init():
+    return {'lr': jnp.asarray(0.5), 'w': jnp.ones((4,), jnp.bfloat16), 'h': jnp.ones((3,), jnp.float16) * 2,
+            'count': jnp.zeros((), jnp.int32), 'key': jax.random.PRNGKey(7)}
+
+  def apply(state, clients):
+    d = _client_digest(clients)
+    w, h, lr = state['w'], state['h'], state['lr']
+    g = ((d % 7 + 1) / 8.0 + 0.125 * jnp.arange(w.shape[0])).astype(w.dtype)
+    gh = ((d % 5 + 1) / 4.0 + 0.25 * jnp.arange(h.shape[0])).astype(h.dtype)
+    key = jax.random.fold_in(state['key'], d % 1000)
+    noise = jax.random.uniform(key, h.shape).astype(h.dtype)
+    return {'lr': lr * 0.75, 'w': w - lr * g, 'h': h - lr * gh + noise * lr, 'count': state['count'] + 1,
+            'key': key}, {}
+  if not _MIXED:
+    _MIXED['alg'] = fedjax.FederatedAlgorithm(init, apply)
+  return _MIXED['alg'], init()
+
+
+def _algorithm(case):
+  return {'toy': _toy_algorithm, 'fedavg': _fedavg_algorithm, 'mixed': _mixed_algorithm}[case['algo']]()
+
+
+def _state_summary(state):
+  import jax
+  import numpy as np
+  return ['%s:%s%s' % ('jax' if isinstance(l, jax.Array) else type(l).__name__, np.asarray(l).dtype,
+                       '(weak)' if getattr(l, 'weak_type', False) else '')
+          for l in jax.tree_util.tree_leaves(state)]
 
 
 def _make_evals(env, case):
@@ -321,7 +371,7 @@ def _one_run(case, root, crash, ctx):
   env = _Env(root, rec, lambda name, data: _decode(name, data, ctx))
   out = {'crashed': False, 'error': None, 'state': None}
   with _Patched(env):
-    alg, init = _toy_algorithm() if case['algo'] == 'toy' else _fedavg_algorithm()
+    alg, init = _algorithm(case)
     if ctx.get('record_states') is not None:
       inner = alg.apply
 
@@ -337,6 +387,7 @@ def _one_run(case, root, crash, ctx):
       state = fe.run_federated_experiment(alg, init, _Sampler(env, case['seed']), config, per, fin)
       out['state'] = _canon_state(case, state, ctx)
       out['state_bytes'] = _state_bytes(state).hex() if case['algo'] != 'toy' else None
+      out['state_summary'] = _state_summary(state) if case['algo'] != 'toy' else None
     except crashfs.SimCrash:
       out['crashed'] = True
     except Exception as ex:  # pylint: disable=broad-except
@@ -419,7 +470,7 @@ def _reference(case):
     root = os.path.join(base, ROOTS[case['root']])
     ctx = {}
     if case['algo'] != 'toy':
-      _, init = _fedavg_algorithm()
+      _, init = _algorithm(case)
       ctx['record_states'] = [_state_bytes(init)]
     r = _one_run(case, root, None, ctx)
     ref_states = ctx.get('record_states')
@@ -429,7 +480,7 @@ def _reference(case):
            'state': (None if r['error'] is not None or r['state'] is None else
                      [int(x) for x in r['state']] if case['algo'] == 'toy' else
                      _abstract(bytes.fromhex(r['state_bytes']), ctx2)),
-           'state_bytes': r.get('state_bytes'),
+           'state_bytes': r.get('state_bytes'), 'state_summary': r.get('state_summary'),
            'tsv': {n: h for n, _, h in r['dir'] if h is not None}}
   finally:
     shutil.rmtree(base, ignore_errors=True)
@@ -448,12 +499,13 @@ def run(case):
     for crash in list(case['crashes']) + [None]:
       r = _one_run(case, root, crash, ctx)
       runs.append({'crashed': r['crashed'], 'error': r['error'], 'state': r['state'], 'dir': r['dir'],
-                   'trace': r['trace'], 'flags': r['flags'], 'state_bytes': r.get('state_bytes')})
+                   'trace': r['trace'], 'flags': r['flags'], 'state_bytes': r.get('state_bytes'),
+                   'state_summary': r.get('state_summary')})
       if r['error'] is not None:
         break
   finally:
     shutil.rmtree(base, ignore_errors=True)
-  return {'ref': {k: ref[k] for k in ('error', 'state', 'tsv', 'trace_len', 'state_bytes')},
+  return {'ref': {k: ref[k] for k in ('error', 'state', 'tsv', 'trace_len', 'state_bytes', 'state_summary')},
           'digests': _digests(case['seed'], case['cfg']['R']) if case['algo'] == 'toy' else [0] * case['cfg']['R'],
           'runs': runs}
 
@@ -497,7 +549,10 @@ def oracle(case, obs):
   if last['error'] is None and not last['crashed']:
     same_state = (last['state'] == ref['state']) if case['algo'] == 'toy' else (last['state_bytes'] == ref['state_bytes'])
     if not same_state:
-      out.append(('final-state-differs', f'resumed run returned {last["state"]}, uninterrupted run {ref["state"]}'))
+      what = (f'resumed run returned {last["state"]}, uninterrupted run {ref["state"]}' if case['algo'] == 'toy' else
+              f'the returned state differs from the uninterrupted run by leaf type / dtype / weak_type / bits: '
+              f'resumed {last.get("state_summary")}, uninterrupted {ref.get("state_summary")}')
+      out.append(('final-state-differs', what))
     tsv = {n: h for n, _, h in last['dir'] if h is not None}
     if tsv != ref['tsv']:
       out.append(('final-eval-output-differs', 'the .tsv files after the resumed run differ from the uninterrupted '
@@ -659,7 +714,7 @@ def generate(tier, rng):
       yield {**base, 'crashes': [p]}
     # deeper histories
     if full:
-      firsts = pts if cfg['R'] <= 3 and cfg['evf'] == 0 else rng.sample(pts, min(len(pts), 4))
+      firsts = pts if cfg['R'] <= 3 and cfg['evf'] == 0 else rng.sample(pts, min(len(pts), 3))
     else:
       firsts = rng.sample(pts, min(len(pts), 3)) if i % 4 == 0 else []
     for p1 in firsts:
@@ -668,10 +723,23 @@ def generate(tier, rng):
       seconds = pts2 if (full and cfg['R'] <= 2) else rng.sample(pts2, min(len(pts2), 3))
       for p2 in seconds:
         yield {**base, 'crashes': [p1, p2]}
-        if full and rng.random() < 0.5:
+        if full and rng.random() < 0.3:
           tr3, rw3 = _probe({**base, 'crashes': [p1, p2]})
           p3 = rng.choice(_crash_points(tr3, rw3, False, i + 2))
           yield {**base, 'crashes': [p1, p2, p3]}
+  # mixed-kind JAX pytree state (weak scalar, bfloat16 / float16, int32, PRNG key): every crash history must end in a
+  # state equal to the uninterrupted one by leaf type, dtype, weak_type and bits
+  mixed = [_cfg(3, 1, 1, 0, 1), _cfg(4, 2, 2, 1, 1)] + ([_cfg(5, 3, 1, 2, 2), _cfg(2, 1, 3, 0, 1)] if full else [])
+  for cfg in mixed:
+    base = {'algo': 'mixed', 'cfg': cfg, 'root': 0, 'seed': 7, 'crashes': []}
+    yield base
+    tr, rw = _probe(base)
+    pts = _crash_points(tr, rw, False, 0)
+    for p in pts:
+      yield {**base, 'crashes': [p]}
+    for p1 in rng.sample(pts, min(len(pts), 4)):
+      tr2, rw2 = _probe({**base, 'crashes': [p1]})
+      yield {**base, 'crashes': [p1, rng.choice(_crash_points(tr2, rw2, False, 1))]}
   # FedAvg on a tiny in-memory dataset
   favg = [_cfg(3, 2, 1, 1, 1)] + ([_cfg(4, 1, 2, 2, 2), _cfg(5, 3, 1, 0, 1)] if full else [])
   for cfg in favg:
